@@ -1211,10 +1211,15 @@ class Frame(ContainerOperand):
                 columns_labels.append(name)
                 yield array_final
 
+        # if all fields are used for the index, no blocks are yielded
+        shape_reference = (len(array) if array.ndim else 1, 0)
+
         if consolidate_blocks:
-            data = TypeBlocks.from_blocks(TypeBlocks.consolidate_blocks(blocks()))
+            data = TypeBlocks.from_blocks(
+                    TypeBlocks.consolidate_blocks(blocks()),
+                    shape_reference=shape_reference)
         else:
-            data = TypeBlocks.from_blocks(blocks())
+            data = TypeBlocks.from_blocks(blocks(), shape_reference=shape_reference)
 
         return data, index_arrays, columns_labels
 
@@ -6607,6 +6612,16 @@ class Frame(ContainerOperand):
                 else:
                     row.extend(f'{x}' for x in columns_row)
                 yield row
+
+        if include_index and self._blocks._shape[1] == 0:
+            # no elements to iterate: each row is only its index labels
+            for index_value in index_values:
+                labels = (index_value,) if index_depth == 1 else index_value
+                if store_filter:
+                    yield [f'{filter_func(x)}' for x in labels]
+                else:
+                    yield [f'{x}' for x in labels]
+            return
 
         col_idx_last = self._blocks._shape[1] - 1
         # avoid row creation to avoid joining types; avoide creating a list for each row
